@@ -10,7 +10,7 @@
 EXTENDS Naturals, Sequences, FiniteSets, TLC, Json, IOUtils
 CONSTANTS MaxWords, MaxResv
 
-Vocab == {"kit", "kitten", "itt", "Zur", "ZUR1x", "nyz", "k.t", "zürich", "MALMÖ-hq"}
+Vocab == {"kit", "kitten", "itt", "Zur", "ZUR1x", "nyz", "k.t", "zürich", "MALMÖ-hq", "straße"}
 \* user reserved words: one contains a listed word, one with capitals, one is itself a listed word
 RVocab == {"kitten", "MyCorpkit", "Kit", "zurich", "nyz", "plain"}
 \* tokens that embed / vary each word
@@ -24,6 +24,7 @@ TokensOf(w) ==
     [] w = "k.t"    -> {"k.t", "kat", "K.T", "xk.tx"}
     [] w = "zürich" -> {"zürich", "Zürich", "ZÜRICH", "xZÜRICHx", "zurich"}
     [] w = "MALMÖ-hq" -> {"MALMÖ-hq", "malmö-hq", "Malmö-HQ-1", "MALMO-hq"}
+    [] w = "straße" -> {"straße", "Straße", "STRAßE-gw", "xstraßex", "strasse", "Hauptstraße7"}      \* a letter that full case folding expands
 Fixed == {"interface", "Interface", "description", "MyCorpkit", "mycorpkit", "plain", "Plain", "10.1.1.1", "permit", "kitchen"}
 
 VARIABLES cfg
